@@ -79,7 +79,7 @@ def run(ctx):
                        "the other files vs a fresh run; distinct = distinct (request, reply)")
     if not harness_build(ctx):
         return
-    args = ["--seed", ctx.seed, "--n", tier_n(ctx, 3000, 60000), "--sets", tier_n(ctx, 10, 300),
+    args = ["--seed", ctx.seed, "--n", tier_n(ctx, 3000, 60000), "--sets", tier_n(ctx, 8, 300),
             "--tc", tier_n(ctx, 1, 30), "--allk", tier_n(ctx, 2, 1000)]
     if getattr(ctx, "replay", None):
         args = ["--replay", _replay_file(ctx)]
